@@ -870,27 +870,109 @@ class Prover:
 
     def shaped_model(self, conds: Sequence[z3.BoolRef], vars_: Sequence[z3.ArithRef],
                      extra: Sequence[z3.BoolRef] = ()) -> Optional[Dict[str, Fraction]]:
-        """A model with every real variable pinned to a dyadic grid (so that a float
-        replay agrees with exact arithmetic), or None."""
-        for den, bound in ((8, 8000), (1024, 2**20), (1, 10**9)):
-            s = z3.Solver()
-            s.set("timeout", self.timeout_ms)
-            s.add(*conds)
-            s.add(*extra)
-            for i, v in enumerate(vars_):
-                if v.sort() == z3.IntSort():
-                    s.add(v >= -bound, v <= bound)
-                else:
-                    k = z3.Int(f"grid!{i}")
-                    s.add(v * den == z3.ToReal(k), k >= -bound, k <= bound)
-            t0 = time.time()
-            r = str(s.check())
+        """A model whose real variables sit on a dyadic grid wherever the constraints allow
+        (so that a float replay agrees with exact arithmetic), or None if unsatisfiable.
+
+        Greedy: take any model, then pin the variables one at a time to the nearest grid
+        value that keeps the constraints satisfiable (each step is a cheap query with the
+        earlier variables fixed); a variable that cannot be moved keeps its exact value."""
+        s = z3.Solver()
+        s.set("timeout", min(self.timeout_ms, 5000))
+        s.add(*conds)
+        s.add(*extra)
+        t0 = time.time()
+        r = str(s.check())
+        self.asked += 1
+        if r != "sat":
             self.solver_s += time.time() - t0
-            self.asked += 1
-            if r == "sat":
+            return None
+        m = s.model()
+        out: Dict[str, Fraction] = {}
+        for v in vars_:
+            val = model_value(m, v)
+            chosen = None
+            if v.sort() == z3.IntSort():
+                cands = [val]
+            else:
+                cands = []
+                for den in (1, 8, 1024, 2 ** 20):
+                    c = Fraction(round(val * den), den)
+                    if c not in cands:
+                        cands.append(c)
+                if abs(val) > 10 ** 6:
+                    cands = [Fraction(round(val))] + cands
+            for c in cands:
+                s.push()
+                s.add(v == q(c))
+                rr = str(s.check())
+                self.asked += 1
+                if rr == "sat":
+                    m = s.model()
+                    chosen = c
+                    break
+                s.pop()
+            if chosen is None:
+                s.add(v == q(val))
+                if str(s.check()) != "sat":
+                    self.solver_s += time.time() - t0
+                    return None
                 m = s.model()
-                return {str(v): model_value(m, v) for v in vars_}
-        return None
+                chosen = val
+            out[str(v)] = chosen
+        self.solver_s += time.time() - t0
+        return out
+
+
+def _atoms(e: z3.ExprRef, out: List[z3.ExprRef]) -> None:
+    if z3.is_app(e) and e.decl().kind() in (z3.Z3_OP_NOT, z3.Z3_OP_AND, z3.Z3_OP_OR,
+                                             z3.Z3_OP_IMPLIES, z3.Z3_OP_ITE):
+        for c in e.children():
+            _atoms(c, out)
+    elif z3.is_app(e) and e.decl().kind() in (z3.Z3_OP_LE, z3.Z3_OP_LT, z3.Z3_OP_GE,
+                                               z3.Z3_OP_GT, z3.Z3_OP_EQ, z3.Z3_OP_DISTINCT):
+        if e.num_args() == 2 and z3.is_arith(e.arg(0)):
+            out.append(e)
+        for c in e.children():
+            _atoms(c, out)
+    elif z3.is_app(e):
+        for c in e.children():
+            _atoms(c, out)
+
+
+def _term_near_tie(t: z3.ExprRef, m: z3.ModelRef, rel: float = 1e-9) -> bool:
+    atoms: List[z3.ExprRef] = []
+    _atoms(t, atoms)
+    for a in atoms:
+        try:
+            l, r = model_value(m, a.arg(0)), model_value(m, a.arg(1))
+        except HarnessError:
+            continue
+        if abs(l - r) <= rel * max(abs(l), abs(r)) or (l == 0 and r == 0):
+            return True
+    return False
+
+
+def _near_tie(path: "Path", vars_: Dict[str, z3.ArithRef], model: Dict[str, Fraction],
+              rel: float = 1e-9) -> bool:
+    s = z3.Solver()
+    s.set("timeout", 5000)
+    s.add(path.cond)
+    for n, v in vars_.items():
+        s.add(v == q(model[n]))
+    if str(s.check()) != "sat":
+        return False
+    m = s.model()
+    atoms: List[z3.ExprRef] = []
+    for c in path.pc:
+        _atoms(c, atoms)
+    for a in atoms:
+        try:
+            l, r = model_value(m, a.arg(0)), model_value(m, a.arg(1))
+        except HarnessError:
+            continue
+        if abs(l - r) <= rel * max(abs(l), abs(r)) or (l == 0 and r == 0):
+            return True
+    return False
 
 
 def model_value(m: z3.ModelRef, v: z3.ArithRef) -> Fraction:
@@ -1041,21 +1123,52 @@ class Case:
         except Exception as e:
             return None, e
 
-    def selfcheck(self, path: Path, P: Prover, rel: float = 1e-9) -> bool:
+    def selfcheck(self, path: Path, P: Prover, rel: float = 1e-9, tries: int = 3) -> bool:
         """Translator validation + reachability witness for one path: a shaped model of the
         path condition is evaluated in the z3 terms *and* fed as plain numbers to the same
-        library calls; the two must agree.  Returns False when no shaped model exists."""
+        library calls; the two must agree.  Exact real arithmetic and floats legitimately
+        disagree at ties (e.g. 1000*s*0.001 == s holds in doubles, not in reals), so a
+        mismatch is retried on further models; only if every model mismatches is the proxy
+        layer declared wrong.  Returns False when no shaped model exists."""
+        extra: List[z3.BoolRef] = []
+        last: Optional[HarnessError] = None
+        for _ in range(tries):
+            try:
+                m = self._selfcheck_once(path, P, rel, extra)
+            except HarnessError as e:
+                if not str(e).startswith("self-check:"):
+                    raise
+                last = e
+                m = self._last_model
+            else:
+                return m is not None
+            if m is None:
+                break
+            extra.append(z3.And(*[v != q(m[str(v)]) for v in self.vars.values()]))
+        if last is not None:
+            if self._last_model is not None and _near_tie(path, self.vars, self._last_model):
+                # a path that exists only on a branch boundary: exact reals and doubles
+                # legitimately take different sides there; it cannot be float-validated
+                self.tie_paths = getattr(self, "tie_paths", 0) + 1
+                return False
+            raise last
+        return False
+
+    def _selfcheck_once(self, path: Path, P: Prover, rel: float,
+                        extra: Sequence[z3.BoolRef]) -> Optional[Dict[str, Fraction]]:
+        self._last_model = None
         vs = list(self.vars.values())
-        conds = [path.cond]
+        conds = [path.cond, *extra]
         m = P.shaped_model(conds, vs)
         if m is None:
-            return False
+            return None
+        self._last_model = m
         res, exc = self.concrete(m)
         if isinstance(path.exc, NonFinite):
             # the real run continues with an infinity / NaN; whatever happens next is
             # outside what the proxies model
             self.selfchecked += 1
-            return True
+            return m
         if (exc is None) != (path.exc is None):
             # a fork that exists only in exact arithmetic (e.g. x == 0.3 exactly) can be
             # unreachable in floats; anything else is a translator bug
@@ -1068,14 +1181,14 @@ class Case:
                 raise HarnessError(f"self-check: exception {type(path.exc).__name__} vs "
                                    f"concrete {type(exc).__name__} at {m}")
             self.selfchecked += 1
-            return True
+            return m
         s = z3.Solver()
         s.set("timeout", self.timeout_ms)
         s.add(path.cond)
         for n, v in self.vars.items():
             s.add(v == q(m[n]))
         if str(s.check()) != "sat":
-            return False
+            return None
         mod = s.model()
         for k, want in res.items():
             got = path.result.get(k)
@@ -1092,6 +1205,8 @@ class Case:
                                        f"{kind_of(want)} at {m}")
             elif isinstance(got, SBool):
                 gb = z3.is_true(mod.eval(got.t, model_completion=True))
+                if gb != bool(want) and _term_near_tie(got.t, mod):
+                    continue  # an unforced comparison sitting on a tie: reals != doubles
                 if gb != bool(want):
                     raise HarnessError(f"self-check: truth value {k}: {gb} vs {want} at {m}")
             elif isinstance(got, (int, float, Decimal)) and not isinstance(got, bool):
@@ -1102,4 +1217,4 @@ class Case:
                 if got is not want and got != want:
                     raise HarnessError(f"self-check: {k}: {got!r} vs {want!r} at {m}")
         self.selfchecked += 1
-        return True
+        return m
